@@ -174,6 +174,7 @@ class _Redis:
 
 class C07(Prop):
     ID = 'C07'
+    EXTRA_PROPS = ('IntegrationStore',)   # C07×C06: the restart round trip with the JSON / Redis driver models in place of the abstract store
     N_QUICK = 128
     N_THOROUGH = 1600
     CASE_TIMEOUT = 120
